@@ -22,7 +22,7 @@ EXPLANATION = ("PGSImpulseSolver::solve (the real projected Gauss-Seidel sweeps,
                "norm of the last sweep's error-propagation matrix (computed by the spec from the pinned A, D and the solver's relaxation factor).")
 BOUNDS = ("1-8 multipliers; rank of J 1-4 (A singular when rank < m); maxIters 1-3; row sets listed in spec/C44.py ROWSETS_*; right-hand sides, expansion impulses, "
           "bounds and tolerance free in groups of <= 3 variables at a time (1 group quick, 2 thorough), the others and J, D, mu pinned at exact rational base points "
-          "(1 quick / 2 thorough); path budget 6 (quick) / 20 (thorough) per instance and base point; products of more than 3000 terms abstracted, obligations whose own polynomial "
+          "(1 quick / 2 thorough); path budget 6 (quick) / 10 (thorough) per instance and base point; products of more than 3000 terms abstracted, obligations whose own polynomial "
           "exceeds that size are left out (listed in the evidence assumptions)")
 TECHNIQUE = ("Engine S; each query is first sent to z3 as its linear-arithmetic relaxation over monomials (unsat there is a proof), the remaining ones to QF_NRA (nlsat)")
 NOT_COVERED = ("PLUSImpulseSolver (active-set solve through FactorQTZ/LAPACK: out of reach of the instrumentation); '[A+D]pi = rhs' for PGS only to the "
@@ -51,8 +51,8 @@ def instances(tier, seed):
     out = []
     for rows, K, its, opts in (ROWSETS_QUICK if tier == "quick" else ROWSETS_THOROUGH):
         out.append(dict(name="%s/K%d/it%d%s" % (rows, K, its, "/" + opts if opts else ""), args=[rows, str(K), str(its), opts],
-                        paths=6 if tier == "quick" else 20, base_points=1 if tier == "quick" else 2,
-                        flips_per_path=5 if tier == "quick" else 8, abstract_big=True, max_terms=3000, lra_first=True, seed_check=True,
+                        paths=6 if tier == "quick" else 10, base_points=1 if tier == "quick" else 2,
+                        flips_per_path=5 if tier == "quick" else 6, abstract_big=True, max_terms=3000, lra_first=True, seed_check=True,
                         z3_timeout_ms=120000 if tier == "quick" else 300000, flip_timeout_ms=1000))
     return out
 
